@@ -92,12 +92,24 @@ Definition sseq (a b : re) : re :=
   | _, REps => a
   | _, _ => RSeq a b
   end.
-Definition salt (a b : re) : re :=
-  match a, b with
-  | RNone, _ => b
-  | _, RNone => a
-  | _, _ => if re_eqb a b then a else RAlt a b
+(* alternatives are kept flat and without repetition, so that residuals of repetitions stabilise syntactically *)
+Fixpoint alts (r : re) : list re :=
+  match r with
+  | RAlt a b => alts a ++ alts b
+  | RNone => []
+  | _ => [r]
   end.
+Fixpoint dedup_re (l : list re) : list re :=
+  match l with
+  | [] => []
+  | x :: t => if existsb (re_eqb x) t then dedup_re t else x :: dedup_re t
+  end.
+Fixpoint mk_alt (l : list re) : re :=
+  match l with
+  | [] => RNone
+  | x :: t => match t with [] => x | _ :: _ => RAlt x (mk_alt t) end
+  end.
+Definition salt (a b : re) : re := mk_alt (dedup_re (alts a ++ alts b)).
 
 Lemma sseq_sound : forall a b w, matches (RSeq a b) w -> matches (sseq a b) w.
 Proof.
@@ -106,18 +118,57 @@ Proof.
     try (inversion Ha; subst; cbn [app]; exact Hb); try (inversion Hb; subst; rewrite app_nil_r; exact Ha).
 Qed.
 
+Lemma alts_sound : forall r w, matches r w -> exists x, In x (alts r) /\ matches x w.
+Proof.
+  induction r as [| |ts|a IHa b IHb|a IHa b IHb|x IHx lo hi]; intros w H; cbn [alts].
+  - inversion H.
+  - exists REps. split; [left; reflexivity | exact H].
+  - exists (RTag ts). split; [left; reflexivity | exact H].
+  - exists (RSeq a b). split; [left; reflexivity | exact H].
+  - inversion H as [| | |a' b' u Ha|a' b' u Hb| |]; subst.
+    + destruct (IHa w Ha) as [x [Hin Hx]]. exists x. split; [apply in_or_app; left; exact Hin | exact Hx].
+    + destruct (IHb w Hb) as [x [Hin Hx]]. exists x. split; [apply in_or_app; right; exact Hin | exact Hx].
+  - exists (RRep x lo hi). split; [left; reflexivity | exact H].
+Qed.
+Lemma alts_complete : forall r w x, In x (alts r) -> matches x w -> matches r w.
+Proof.
+  induction r as [| |ts|a IHa b IHb|a IHa b IHb|y IHy lo hi]; intros w x Hin Hx; cbn [alts] in Hin;
+    try (destruct Hin as [E|[]]; subst x; exact Hx).
+  - contradiction.
+  - apply in_app_or in Hin. destruct Hin as [Hin|Hin]; [apply MAltL; exact (IHa w x Hin Hx) | apply MAltR; exact (IHb w x Hin Hx)].
+Qed.
+Lemma dedup_re_in : forall l x, In x l -> In x (dedup_re l).
+Proof.
+  induction l as [|y t IH]; intros x H; [contradiction|]. cbn [dedup_re]. destruct H as [E|H].
+  - subst y. destruct (existsb (re_eqb x) t) eqn:Ex.
+    + apply existsb_exists in Ex. destruct Ex as [z [Hz Ez]]. apply re_eqb_eq in Ez. subst z. apply IH. exact Hz.
+    + left. reflexivity.
+  - destruct (existsb (re_eqb y) t); [apply IH; exact H | right; apply IH; exact H].
+Qed.
+Lemma dedup_re_sub : forall l x, In x (dedup_re l) -> In x l.
+Proof.
+  induction l as [|y t IH]; intros x H; [contradiction|]. cbn [dedup_re] in H.
+  destruct (existsb (re_eqb y) t); [right; apply IH; exact H|]. destruct H as [E|H]; [left; exact E | right; apply IH; exact H].
+Qed.
+Lemma mk_alt_sound : forall l x w, In x l -> matches x w -> matches (mk_alt l) w.
+Proof.
+  induction l as [|y t IH]; intros x w Hin Hx; [contradiction|]. cbn [mk_alt]. destruct t as [|z t'].
+  - destruct Hin as [E|[]]. subst y. exact Hx.
+  - destruct Hin as [E|Hin]; [subst y; apply MAltL; exact Hx | apply MAltR; exact (IH x w Hin Hx)].
+Qed.
+Lemma mk_alt_complete : forall l w, matches (mk_alt l) w -> exists x, In x l /\ matches x w.
+Proof.
+  induction l as [|y t IH]; intros w H; cbn [mk_alt] in H; [inversion H|]. destruct t as [|z t'].
+  - exists y. split; [left; reflexivity | exact H].
+  - inversion H as [| | |a' b' u Ha|a' b' u Hb| |]; subst.
+    + exists y. split; [left; reflexivity | exact Ha].
+    + destruct (IH w Hb) as [x [Hin Hx]]. exists x. split; [right; exact Hin | exact Hx].
+Qed.
+
 Lemma salt_sound : forall a b w, matches (RAlt a b) w -> matches (salt a b) w.
 Proof.
-  intros a b w H.
-  assert (G : forall x y, (matches x w \/ matches y w) -> matches (if re_eqb x y then x else RAlt x y) w).
-  { intros x y [K|K]; destruct (re_eqb x y) eqn:E.
-    - exact K.
-    - apply MAltL. exact K.
-    - apply re_eqb_eq in E. subst. exact K.
-    - apply MAltR. exact K. }
-  inversion H as [| | |a' b' u Ha|a' b' u Hb| |]; subst.
-  - destruct a; destruct b; cbn [salt]; try (inversion Ha; fail); try exact Ha; apply G; left; exact Ha.
-  - destruct a; destruct b; cbn [salt]; try (inversion Hb; fail); try exact Hb; apply G; right; exact Hb.
+  intros a b w H. destruct (alts_sound (RAlt a b) w H) as [x [Hin Hx]]. cbn [alts] in Hin.
+  unfold salt. apply (mk_alt_sound _ x w); [apply dedup_re_in; exact Hin | exact Hx].
 Qed.
 
 (* Brzozowski derivative by one tag *)
@@ -244,11 +295,8 @@ Proof.
 Qed.
 Lemma salt_complete : forall a b w, matches (salt a b) w -> matches (RAlt a b) w.
 Proof.
-  intros a b w H.
-  assert (G : forall x y, matches (if re_eqb x y then x else RAlt x y) w -> matches (RAlt x y) w).
-  { intros x y K. destruct (re_eqb x y); [apply MAltL; exact K | exact K]. }
-  destruct a; destruct b; cbn [salt] in H; try (apply G; exact H); try (apply MAltL; exact H); try (apply MAltR; exact H);
-    try (inversion H; fail).
+  intros a b w H. unfold salt in H. destruct (mk_alt_complete _ w H) as [x [Hin Hx]].
+  apply dedup_re_sub in Hin. apply (alts_complete (RAlt a b) w x); [exact Hin | exact Hx].
 Qed.
 
 Lemma deriv_complete : forall r t w, matches (deriv t r) w -> matches r (t :: w).
